@@ -91,8 +91,50 @@ pub fn worker_specs(prop: &str, _tier: Tier) -> Vec<WorkerSpec> {
     }
 }
 
-/// hook for checks that need parent-side work after the workers (none yet)
-pub fn parent_extra(_prop: &str, _tier: Tier, _seed: u64, _stats: &mut Stats) {}
+/// parent-side work after the workers: merge the coverage-guided stage (thorough tier)
+pub fn parent_extra(prop: &str, _tier: Tier, _seed: u64, stats: &mut Stats) {
+    let wd = crate::runner::work_dir();
+    let sum = wd.join(format!("fuzz-{}.json", prop));
+    let Ok(text) = std::fs::read_to_string(&sum) else { return };
+    let Ok(v) = serde_json::from_str::<serde_json::Value>(&text) else { return };
+    stats.extra.insert("fuzz_stage".into(), v);
+    let cases = wd.join(format!("fuzz-{}-cases.jsonl", prop));
+    let Ok(lines) = std::fs::read_to_string(&cases) else { return };
+    let known = crate::runner::load_known();
+    for line in lines.lines() {
+        let Ok(doc) = serde_json::from_str::<serde_json::Value>(line) else { continue };
+        let Ok(mut case) = serde_json::from_value::<Case>(doc["case"].clone()) else { continue };
+        case.prop = prop.to_string();
+        let artifact = doc["artifact"].as_str().unwrap_or("").to_string();
+        // confirm outside the sanitizer build: debug-assertion build first, then the optimised build
+        let mut confirmed: Option<(Case, String)> = None;
+        for variant in ["chk", "rel"] {
+            let mut c = case.clone();
+            c.variant = variant.into();
+            if let Some(r) = crate::runner::run_case_subprocess(&c) {
+                confirmed = Some((c, r));
+                break;
+            }
+        }
+        let (c, reason, crashed) = match confirmed {
+            Some((c, r)) => {
+                let (m, mr) = crate::runner::shrink(&c, &r, &mut |x| crate::runner::run_case_subprocess(x));
+                (m, mr, false)
+            }
+            None => (
+                case.clone(),
+                format!("found by the libFuzzer/AddressSanitizer target only (not reproduced by the plain builds): replay with `cargo +nightly fuzz run --fuzz-dir fuzz <target> {}`", artifact),
+                true,
+            ),
+        };
+        let sig = signature(&c);
+        if known.iter().any(|k| k.property == prop && k.signature == sig) {
+            *stats.known_hits.entry(sig).or_default() += 1;
+            continue;
+        }
+        stats.violations.push(crate::runner::Violation { case: c, original: case, reason, signature: sig, crashed, replay: String::new() });
+    }
+}
 
 /// The call-level check a case names
 pub fn run_case(case: &Case) -> Outcome {
